@@ -23,7 +23,8 @@ ASSUMPTIONS = [
 IMPORTS = rc.IMPORTS + ["Env"]
 ROUND_IMPORTS = IMPORTS + ["TerminationProofs", "RoundCheck"]
 QUIET_IMPORTS = IMPORTS + ["QuietProofs"]
-ROUND_OPS = 2 + 12 + 12      # refresh, reconcile, gone x names, settle x names
+NAMES = 18
+ROUND_OPS = 2 + NAMES + NAMES      # refresh, reconcile, gone x names, settle x names
 KEV = {"run": "KRun", "ready": "KReady", "unready": "KUnready", "fail": "KFail", "succeed": "KSucceed", "gone": "KGone", "settle": "KSettle"}
 
 
@@ -64,7 +65,7 @@ def pods_now(model_pods):
 def gen_ops(rng, api, n_chaos):
     """ops of the chaotic prefix; pod names are drawn from the names that can exist"""
     s = api["set"]
-    names = ["%s-%d" % (s["name"], i) for i in range(0, 12)]     # every ordinal a history can reach (replicas <= 5, slots <= 5)
+    names = ["%s-%d" % (s["name"], i) for i in range(0, NAMES)]     # every ordinal a history can reach (replicas <= 10, slots <= 11, extras <= replicas + 2)
     ops = []
     edits_left = rng.choice([0, 1, 2])
     for _ in range(n_chaos):
@@ -238,7 +239,7 @@ def run(ctx, depth):
     for _ in range(n):
         api, cache = start_world(rng)
         ops, names = gen_ops(rng, api, rng.randint(10, 40) if quick else rng.randint(20, 120))
-        rounds = 30
+        rounds = 30 if (api["set"]["replicas"] or 0) <= 5 else 80     # at least mu(pods) of TerminationProofs.v: <= 3 per desired ordinal + extras
         sc = dict(api=api, cache=cache, ops=ops + fair_suffix(names, rounds), dump=True, tmpls=[1, 2, 3])
         part = (api["set"]["rolling"] or {}).get("partition") or 0
         for op in ops:
